@@ -34,7 +34,8 @@ bool reservedFitsKeyword(const char* key){
 	       strncmp("NAXIS", key, 5) == 0 ||
 	       strncmp("PERIOD", key, 6) == 0 ||
 	       strncmp("EXTEND", key, 6) == 0 ||
-	       strncmp("COMMENT", key, 7) == 0);
+	       strncmp("COMMENT", key, 7) == 0 ||
+	       strcmp("END", key) == 0); //terminates the header; anything stored after it is lost
 }
 
 uint32_t countAuxKeywords(fitsfile* fits){
